@@ -220,6 +220,109 @@ def cmdReg : P String := do
           return s!"OK resolver=1 {feats}"
     return s!"OK resolver=0 {feats}"
 
-def table : List (String × P String) := [("act", cmdAct), ("atoi", cmdAtoi), ("addr", cmdAddr), ("reg", cmdReg)]
+/-! ## C11: `client <flags> <method> <ptok> <pjson> <nsegs> {seg} <nrecv> | <sendclass> <written> <k> {kind flags params name}` -/
+
+structure RecvObs where
+  kind : String
+  flags : Nat
+  params : Bytes
+  name : Bytes
+
+def optJ (o : Option JVal) : Option JVal := o.map JVal.sanitize
+
+/-- compare one model result with one observation -/
+def recvAgrees (m : RecvResult) (o : RecvObs) : Bool :=
+  let pv : Option JVal := if o.params.isEmpty then none else parseDoc o.params
+  match m with
+  | .unexpectedEOF => o.kind == "ueof"
+  | .decodeError => o.kind == "decode"
+  | .reply p c =>
+    -- `receive` leaves the caller's value alone when there are no parameters
+    o.kind == "reply" && o.flags == (if c then flagContinues else 0) && optJValBeq p pv
+  | .remoteError n p => o.kind == "remote" && o.name == n && optJValBeq p pv
+  | .stdError (.interfaceNotFound i) => o.kind == "std-i" && o.name == i
+  | .stdError (.methodNotFound i) => o.kind == "std-m" && o.name == i
+  | .stdError (.methodNotImplemented i) => o.kind == "std-n" && o.name == i
+  | .stdError (.invalidParameter i) => o.kind == "std-p" && o.name == i
+
+def recvKind : RecvResult → String
+  | .unexpectedEOF => "ueof" | .decodeError => "decode" | .reply _ _ => "reply"
+  | .remoteError _ _ => "remote" | .stdError _ => "std"
+
+def cmdClient : P String := do
+  let flagsN ← nat
+  let method ← bytes
+  let ptok ← tok
+  let pjson ← bytes
+  let segs ← listOf bytes
+  let nrecv ← nat
+  expect "|"
+  let sendClass ← tok
+  let written ← bytes
+  let obs ← listOf (do let k ← tok; let f ← nat; let p ← bytes; let n ← bytes; pure ({ kind := k, flags := f, params := p, name := n } : RecvObs))
+  let f := Flags.ofNat flagsN
+  let payload : Option Payload :=
+    if ptok == "absent" then some .absent
+    else if ptok == "bad" then some .bad
+    else (parseDoc pjson).map Payload.val
+  let stream := segs.flatten
+  let (frames, tail) := splitOnNul stream
+  let cutInside := !tail.isEmpty
+  match payload with
+  | none => return s!"PROTO-ERROR unparsable-generated-parameters"
+  | some pl =>
+    let res := send method pl f
+    let forbidden := (f.more && f.oneway) || (f.more && f.upgrade)
+    let feats0 := s!"nt={if cutInside then 1 else 0} flags={flagsN} forbidden={forbidden} ptok={ptok} frames={frames.length} segs={segs.length} tail={!tail.isEmpty}"
+    -- the property on the observation itself: forbidden combinations write nothing
+    if sendClass == "panic" then return s!"DIFF C11 send-panic {feats0}"
+    if forbidden && !written.isEmpty then return s!"DIFF C11 forbidden-flags-but-bytes-written {feats0}"
+    match res with
+    | .refusedOneway =>
+      if sendClass == "refused:oneway" && written.isEmpty then return s!"OK send=refused {feats0}"
+      else return s!"DIFF C11 send model=refused-oneway observed={sendClass} {feats0}"
+    | .refusedMore =>
+      if sendClass == "refused:more" && written.isEmpty then return s!"OK send=refused {feats0}"
+      else return s!"DIFF C11 send model=refused-more observed={sendClass} {feats0}"
+    | .encodeError =>
+      if sendClass == "encode" && written.isEmpty then return s!"OK send=encode-error {feats0}"
+      else return s!"DIFF C11 send model=encode-error observed={sendClass} {feats0}"
+    | .written frame =>
+      if sendClass != "ok" then return s!"DIFF C11 send model=written observed={sendClass} {feats0}"
+      -- exactly one frame: JSON object, one NUL at the end, no NUL inside (C02), equal to the model's object
+      let (wf, wtail) := splitOnNul written
+      if !(wf.length == 1 && wtail.isEmpty) then return s!"DIFF C02 client-frame-not-one-nul-terminated-message {feats0}"
+      match parseDoc (wf.headD []) with
+      | some (.obj ms) =>
+        if !((JVal.obj ms) == frame.sanitize) then return s!"DIFF C11 sent-call-differs-from-request {feats0}"
+        -- the flags on the wire, read as the service reads them, are the requested ones
+        match applyMembers {} ms with
+        | some c =>
+          if !(c.more == f.more && c.oneway == f.oneway && c.upgrade == f.upgrade) then
+            return s!"DIFF C11 sent-flags-differ-from-requested {feats0}"
+          let bytesEq := written == render frame.sanitize ++ [0]
+          -- receive, repeatedly, on the scripted reply stream
+          let rec go (k : Nat) (b : Bufio) (net : Net) (os : List RecvObs) (i : Nat) : Option String × List String :=
+            match k, os with
+            | 0, _ => (none, [])
+            | _, [] => (some s!"missing-observation-{i}", [])
+            | k + 1, o :: os =>
+              let (m, b', net') := receive 4096 b net
+              if o.kind == "panic" then (some s!"receive-panic-at-{i}", [])
+              else if !recvAgrees m o then (some s!"receive-{i} model={recvKind m} observed={o.kind}", [])
+              else
+                let (r, ks) := go k b' net' os (i + 1)
+                (r, recvKind m :: ks)
+          let (bad, kinds) := go nrecv {} segs obs 0
+          let feats := s!"{feats0} renderEq={bytesEq} kinds={String.intercalate "," (kinds.take 4)}"
+          match bad with
+          | some why => return s!"DIFF C11 {why} {feats}"
+          | none =>
+            if obs.length != nrecv then return s!"DIFF C11 observation-count {feats}"
+            return s!"OK send=written {feats}"
+        | none => return s!"DIFF C11 sent-call-not-decodable-by-service {feats0}"
+      | _ => return s!"DIFF C02 client-frame-not-a-json-object {feats0}"
+
+def table : List (String × P String) := [("act", cmdAct), ("atoi", cmdAtoi), ("addr", cmdAddr), ("reg", cmdReg), ("client", cmdClient)]
 
 end Driver.Misc
